@@ -246,12 +246,25 @@ def stub_format(stub, mode, text):
 
     if stub == "identity":
         return text
-    try:
-        out = black.format_str(text, mode=_black_mode(mode))
-    except Exception:
-        # a real `black -` exits non-zero on code it cannot parse
-        raise
+    out = black.format_str(text, mode=_black_mode(mode))  # raises on code it cannot parse, like `black -` exiting non-zero
+    if stub == "requote":
+        out = _requote(out)
     return out
+
+
+def _requote(text):
+    """a formatter with another opinion about quotes: plain "..." literals become '...' where no escaping changes"""
+    import io
+    import tokenize
+
+    toks = []
+    for t in tokenize.generate_tokens(io.StringIO(text).readline):
+        s = t.string
+        if t.type == tokenize.STRING and s.startswith('"') and not s.startswith('"""') and "'" not in s and "\\" not in s and len(s) >= 2:
+            s = "'" + s[1:-1] + "'"
+        toks.append((t.type, s, t.start, t.end, t.line))
+    # same lengths -> positions stay valid
+    return tokenize.untokenize(toks)
 
 
 def install_formatter(S: Seams, fmt):
